@@ -40,7 +40,7 @@ ASSUMPTIONS = ['constructor arguments are ints or 2-tuples of ints (other types:
                'iteration/cardinality theorems are about the mathematical sequence; len() of a set with more than '
                'sys.maxsize members raises OverflowError in CPython (cardinality() does not)']
 
-MOD = 'Model.IntegerSet'
+MOD = 'Model.IntegerSetObs'
 PROOFS = ['Proofs/C33_intset.vo']
 
 
@@ -115,12 +115,8 @@ def values_term(vals):
 
 
 def model_term(A, B, zs, with_iter):
-    parts = ['a', 'b', 'union a b', 'intersection FUEL a b', 'difference FUEL a b',
-             'symmetric_difference FUEL a b', 'ranges_eqb a b', 'empty a',
-             'cardinality a', 'map (contains a) %s' % to_term(list(zs))]
-    if with_iter:
-        parts.append('iter a')
-    return 'let a := ctor %s in let b := ctor %s in (%s)' % (values_term(A), values_term(B), ', '.join(parts))
+    """Model/IntegerSetObs.v obs: (ctor A, ctor B, A|B, A&B, A-B, A^B, A==B, A.empty(), |A|, [z in A], list(A))"""
+    return 'obs %s %s %s %s' % ('true' if with_iter else 'false', values_term(A), values_term(B), to_term(list(zs)))
 
 
 def ranges_of(s):
@@ -352,7 +348,7 @@ def run(ctx):
     if ok:
         ctx.check_props('Props/C33.v')
     # ---- correspondence: hand model vs implementation
-    if ctx.build(['Model/IntegerSet.vo', 'Lib/Val.vo'])[0]:
+    if ctx.build(['Model/IntegerSetObs.vo', 'Lib/Val.vo'])[0]:
         gen = gen_cases(ctx, not ctx.quick())
         cases, seen, nontriv = [], set(), 0
         for (A, B, zs, with_iter) in gen:
@@ -366,7 +362,7 @@ def run(ctx):
         for (A, B, zs, wi) in gen[:: max(1, len(gen) // 8)]:
             a, b = IS(*A), IS(*B)
             ctx.note_sample({'A': repr(A), 'B': repr(B), 'A-B': repr(a - b), 'A&B': repr(a & b), 'A^B': repr(a ^ b)})
-        bad = ctx.run_cases('intset', [MOD], cases)
+        bad = ctx.run_cases('intset', ['Model.IntegerSet', MOD], cases)
         if bad:
             for i in bad[:5]:
                 ctx.log('model/implementation disagree on A=%r B=%r' % (gen[i][0], gen[i][1]))
